@@ -120,6 +120,9 @@ func c05rShape(r *rand.Rand, idx int) *c05rReq {
 	}
 	if r.Intn(5) != 0 {
 		for _, f := range js.Root.Fields {
+			if f.Anonymous {
+				continue // mapping.Marshal does not flatten embedded structs of the request struct itself (nested ones travel through encoding/json): not asserted
+			}
 			lt := f.T
 			if lt.K == g.Ptr && lt.Elem.K.IsLeaf() && (len(f.O.Options) > 0 || f.O.Range != nil || f.O.FromString) {
 				continue // mapping.Marshal validates / renders such pointers without dereferencing: not asserted
